@@ -37,6 +37,7 @@ def setup(ctx):
     ctx.require("monitor", "streams_compared", 40)
     ctx.require("monitor", "unsendable_bodies", 60)
     ctx.require("monitor", "l3_streams_compared", 8)
+    ctx.require("monitor", "index_files_through_directory", 14)
     ctx.require("monitor", "stalled_reader_streams", 10)
     ctx.require("monitor", "at_limit_streams", 8)
     ctx.require("monitor", "l2_late_client_bytes_while_answering", 10)
@@ -382,6 +383,16 @@ def run_l3(ctx):
             with open(os.path.join(root, name), "wb") as f:
                 f.write(data)
             files[name] = data
+        # files reached through their DIRECTORY (the index file answers for it): sizes below, at and above what a
+        # directory inode itself reports as its size, and well beyond
+        for n, iname in ((1, "index.gmi"), (4095, "index.gmi"), (4096, "index.gmi"), (4097, "index.gmi"), (16385, "index.gemini"), (100000, "index.gmi"), (0, "index.gmi")):
+            d = f"dir_{n}"
+            os.makedirs(os.path.join(root, d))
+            text = text_body(n, rng)
+            with open(os.path.join(root, d, iname), "w", encoding="utf-8", newline="") as f:
+                f.write(text)
+            files[d + "/"] = text.encode("utf-8")
+            files[d + "/" + iname] = text.encode("utf-8")
         max_fs = 8 << 20
         for backend in ("stdlib", "pyopenssl"):
             if not ctx.mine(0 if backend == "stdlib" else 1) and ctx.nshards > 1:
@@ -400,6 +411,9 @@ def run_l3(ctx):
                         case = {"backend": backend, "len": len(files[name]), "btype": "str", "source": "static" if not name.startswith("odd_") else "static:" + name[:-4], "reader": p}
                         if name.startswith("odd_"):
                             ctx.count("monitor", "static_files_with_special_text")
+                        if name.endswith("/"):
+                            case["source"] = "static:index-file-through-its-directory"
+                            ctx.count("monitor", "index_files_through_directory")
                         if r["error"] and not r["data"]:
                             ctx.inconclusive_because(f"L3 fetch failed: {r['error']}")
                             continue
